@@ -255,7 +255,9 @@ def main():
                 if all(l == 0.0 for l in loads[:k + 1]) and np.abs(d).max() > 1e-12:
                     res.fail(f"damage without loading solver={solver} split={split}", f"max damage {np.abs(d).max():.2e} after {k + 1} steps without loading", ident)
                     break
-                if prevd is not None and (d - prevd).min() < -1e-9:
+                # the property states nodal irreversibility for the damage-based solvers only (History drives the damage
+                # through the monotone history energy; its discrete damage is not monotone node by node)
+                if solver != "History" and prevd is not None and (d - prevd).min() < -1e-9:
                     res.fail(f"damage decreases solver={solver}", f"damage decreases by {-(d - prevd).min():.2e} between saved steps {k - 1} and {k} (split {split})", ident)
                     break
                 if solver == "History" and prevH is not None and (Hn - prevH).min() < -1e-9 * (1 + np.abs(prevH).max()):
